@@ -21,6 +21,50 @@ HASHABLE = z3.Function("HASHABLE", U, BoolS)
 ISDISK = z3.Function("ISDISK", IntS, BoolS)
 
 
+_RECORDED_LOCALS = None
+
+
+def recorded_locals():
+    """baseline/locals.json: function key -> [[local name, skeleton of its
+    first binding], ...] of the audited version of the function"""
+    global _RECORDED_LOCALS
+    if _RECORDED_LOCALS is None:
+        import json
+        import os
+        p = os.path.join(os.path.dirname(os.path.dirname(
+            os.path.abspath(__file__))), "baseline", "locals.json")
+        try:
+            with open(p) as f:
+                _RECORDED_LOCALS = json.load(f)
+        except (OSError, ValueError):
+            _RECORDED_LOCALS = {}
+    return _RECORDED_LOCALS
+
+
+def contract_identifiers(fc):
+    """every identifier occurring in the text of a function's contract"""
+    import re
+    out, seen = set(), set()
+
+    def walk(x, depth=0):
+        if depth > 8 or id(x) in seen:
+            return
+        seen.add(id(x))
+        if isinstance(x, str):
+            out.update(re.findall(r"[A-Za-z_]\w*", x))
+        elif isinstance(x, dict):
+            for k, v in x.items():
+                walk(k, depth + 1)
+                walk(v, depth + 1)
+        elif isinstance(x, (list, tuple, set)):
+            for v in x:
+                walk(v, depth + 1)
+        elif hasattr(x, "__dict__") and not callable(x):
+            walk(vars(x), depth + 1)
+    walk(vars(fc))
+    return out
+
+
 class Unsupported(Exception):
     pass
 
@@ -2065,6 +2109,16 @@ class Engine:
     def verify(self, fc, max_paths=4000):
         node, h, path = S.get_function(self.repo, fc.module, fc.qualname)
         node = copy.deepcopy(node)
+        # locals as they are spelt in the repository now (recorded in the
+        # baseline), then renamed back to the spelling the contract uses where
+        # a maintainer renamed them (alpha-renaming, see source.py)
+        fc.locals_now = [list(x) for x in S.local_bindings(node)]
+        try:
+            fc.renamed = S.restore_local_names(
+                node, recorded_locals().get(fc.key),
+                contract_identifiers(fc))
+        except S.SourceError as e:
+            raise Unsupported(str(e))
         S.desugar_effectful_dictcomps(
             node, lambda nm: self.reg.find_function(nm) is not None)
         tree, _, _ = S.load_module(self.repo, fc.module)
